@@ -75,9 +75,17 @@ pub fn gen_msg(src: &mut Src) -> Msg {
         2 => Msg::Blob(Blob { id: src.word(), data: gen_bytes(src) }),
         3 => {
             let inner = if src.chance(1, 2) { Some(Blob { id: src.word(), data: gen_bytes(src) }) } else { None };
-            let n_list = src.below(5);
-            let list = (0..n_list).map(|_| Text { s: gen_string(src) }).collect();
-            let n_map = src.below(5);
+            // collection lengths: small, or around the powers of two where serialiser scratch space and hash-map
+            // layouts change (a Vec of 128 strings needs exactly 1024 bytes of scratch)
+            let boundary = [15usize, 16, 17, 31, 32, 33, 63, 64, 65, 127, 128, 129, 255, 256, 257, 511, 512, 513, 1023, 1024, 1025];
+            let n_list = if src.chance(1, 4) { *src.pick(&boundary) } else { src.below(5) };
+            let list = if n_list > 4 {
+                let tail = src.below(3);
+                (0..n_list).map(|i| Text { s: "x".repeat((i + tail) % 3) }).collect()
+            } else {
+                (0..n_list).map(|_| Text { s: gen_string(src) }).collect()
+            };
+            let n_map = if src.chance(1, 6) { *src.pick(&boundary) } else { src.below(5) };
             let mut map = BTreeMap::new();
             for i in 0..n_map {
                 map.insert(format!("k{i}-{}", src.below(1000)), src.word());
@@ -349,7 +357,8 @@ impl Prop for Frames {
     }
 
     fn rule(&self) -> &'static str {
-        "values of six message types (fixed-size struct, String, Vec<u8>, nested Option/Vec/BTreeMap, unit, rpc \
+        "values of six message types (fixed-size struct, String, Vec<u8>, nested Option/Vec/BTreeMap with 0-4 or \
+         2^k-1 / 2^k / 2^k+1 (k = 4..10) elements, unit, rpc \
          Status) from empty to 1 MiB; per value: frame round-trips through DataView::using/deserialize_view; every \
          single-bit flip (all bits for frames <= 4 KiB, 2000 bits incl. both ends beyond) is refused; every \
          truncation below root+trailer is refused and every other truncation / extension / multi-byte damage is \
